@@ -94,3 +94,14 @@ def constraint_hierarchy(ctx, system, t, q, u, u_dot, la, label, names=None, ext
         if okw:
             Wf = getattr(S, n["W"])
             jac(ctx, f"{label}.{n['Wla_q']}", J, lambda x: dense(Wf(t, x)) @ la, q, {**ex, "la": la}, key_fn, mon="D:Wla_q")
+
+
+def jac_call(ctx, site, claimed_fn, f, x, extra=None, key_fn=None, mon=None, exc_key_fn=None, floor=1e-6):
+    """like jac, but the claimed derivative is obtained by calling claimed_fn(); an exception there is a
+    violation ('exposed derivative fails') unless it is NotImplementedError"""
+    ok, J = guarded(ctx, site, claimed_fn, extra=extra, key_fn=exc_key_fn)
+    if mon and not ok:
+        ctx.mon(mon)
+    if ok:
+        return jac(ctx, site, J, f, x, extra, key_fn, mon, floor)
+    return False
